@@ -352,7 +352,12 @@ def nontrivial(c, o):
 
 
 def fingerprint(c, o):
-    return None
+    """stable class of a violation: the harness' reason with the numbers stripped"""
+    import re
+    why = o.get("why") or ""
+    if not why:
+        return None
+    return "C14:" + re.sub(r"\d+", "N", why)[:90]
 
 
 def search(ctx, disagreeing):
